@@ -130,11 +130,14 @@ def kinds_in(term, acc=None):
     return acc
 
 
-def _has_sub_key(v):
+def _has_sub_key(v, k=None):
+    """Some dict inside v has a key that is an instance of a str subclass; with k given: ... and that dict is
+    one get_dict_type turns into a TypedDict (all keys str-like, 0 < size <= k)."""
     if v["k"] in ("dict", "ddict"):
         if any(p["a"][0]["k"] == "str" and p["a"][0]["a"] for p in v["a"]):
-            return True
-    return any(_has_sub_key(x) for x in v["a"])
+            if k is None or (k > 0 and len(v["a"]) <= k and all(p["a"][0]["k"] == "str" for p in v["a"])):
+                return True
+    return any(_has_sub_key(x, k) for x in v["a"])
 
 
 def nontrivial(rec):
@@ -193,9 +196,10 @@ def main(pid, tier, seed, replay=None):
                    "errs": sorted({r["err"] for r in rec["runs"]} - {"NONE"})}
             c = case_by_tid[v["tid"]]
             if clause == "Tight":
-                vio["has_str_subclass_key"] = '"k": "pair", "n": "", "a": [{"k": "str"' in json.dumps(rec["vals"]) and \
-                    any(_has_sub_key(x) for x in rec["vals"])
-                if vio["has_str_subclass_key"]:
+                vio["has_str_subclass_key"] = any(_has_sub_key(x) for x in rec["vals"])
+                # the recorded finding needs a str-subclass-keyed dict that BECAME a TypedDict at tracing time
+                vio["str_subclass_keyed_dict_became_typed_dict"] = any(_has_sub_key(x, rec["k1"]) for x in rec["vals"])
+                if vio["str_subclass_keyed_dict_became_typed_dict"]:
                     vio.pop("value_kinds"), vio.pop("n_values"), vio.pop("k")
             if clause == "TDBound" and rec["k1"] != rec["k"]:
                 tys = [r["ty"] for r in rec["runs"] if r["err"] == "NONE"]
